@@ -131,6 +131,9 @@ pub struct WorldCfg {
     /// Whether atomic operations of controlled threads are scheduling points.
     pub atomics_yield: bool,
     pub step_cap: u64,
+    /// Simulated time a controlled thread spends on every pipe transfer it
+    /// writes (0 = instantaneous): a slow child, or a slow pipe.
+    pub child_io_cost_ns: u64,
     /// Steps allowed after the main future completes, for detached tasks to wind down.
     pub drain_steps: u64,
     pub keep_log: bool,
@@ -148,6 +151,7 @@ impl Default for WorldCfg {
             alloc_fail: (0, 1),
             atomics_yield: false,
             step_cap: 200_000,
+            child_io_cost_ns: 0,
             drain_steps: 2_000,
             keep_log: false,
         }
@@ -1366,6 +1370,11 @@ impl io::Write for PipeEnd {
             match r {
                 Some(Ok(k)) => {
                     done += k;
+                    let cost = self.world.lock().cfg.child_io_cost_ns;
+                    if cost > 0 {
+                        self.world.stat("slow_pipe_transfer");
+                        self.world.thread_sleep(&c, cost);
+                    }
                     if done >= data.len() {
                         return Ok(done);
                     }
